@@ -233,7 +233,20 @@ class World:
                                  + (f" with {mt.error!r}" if mt and mt.error else ""))
             want = EXPECT[act]
             have = mt.at[0] if mt.at else None
-            if have != want:
+            # HOW the wrapper finds out whether the process already uses a process lock is not
+            # part of the property (today: isinstance(G, thread-lock type), i.e. one more read of the
+            # global): if the code decides without reading G, the step is a no-op for the real thread
+            noop = (act == "STest" and have in ("newlock", "release", "spawn")) or (
+                act == "SCopy" and have in ("release", "spawn"))
+            if act == "SCopy" and have == "newlock":
+                raise Divergence(
+                    "MutualExclusion", "SCopy:creates-second-process-lock",
+                    f"process {self.proc_of(t)} already uses a process lock (installed by its run wrapper or by an earlier "
+                    f"start) and has to hand THAT lock to the process it starts; the real start wrapper creates a new "
+                    f"process lock instead: the started process and this process' later calls no longer synchronize "
+                    f"with the processes that share the old lock",
+                )
+            if have != want and not noop:
                 raise Divergence(
                     "MutualExclusion", f"{act}:at-{have}",
                     f"specification: thread {t} is about to execute {act} (a {want!r} point); the real "
@@ -250,7 +263,7 @@ class World:
                         else self._program(t2)
                     )
                     ctl.spawn(t2, fn)
-            at = ctl.resume(t)
+            at = mt.at if noop else ctl.resume(t)
             if at[0] == "blocked":
                 lock = at[1]
                 if lock.owner is mt:
